@@ -132,7 +132,7 @@ impl Isometry3 {
         ensures r.translation == translation, r.rotation == rotation { unimplemented!() }
     #[verifier::external_body]
     pub fn inverse(&self) -> (r: Isometry3)
-        ensures self.wf() ==> r.wf() && r.view() == iso_inv(self.view()) { unimplemented!() }
+        ensures r == iso_inv_s(*self) { unimplemented!() }
 }
 impl UnitQuaternion {
     #[verifier::external_body]
@@ -206,6 +206,7 @@ pub open spec fn vec_sub_s(a: Vector3, b: Vector3) -> Vector3 { Vector3 { x: vec
 pub uninterp spec fn vec_scale_s_c(k: f64, b: Vector3, i: int) -> f64;
 pub open spec fn vec_scale_s(k: f64, b: Vector3) -> Vector3 { Vector3 { x: vec_scale_s_c(k, b, 0), y: vec_scale_s_c(k, b, 1), z: vec_scale_s_c(k, b, 2) } }
 pub uninterp spec fn iso_mul_s(a: Isometry3, b: Isometry3) -> Isometry3;
+pub uninterp spec fn iso_inv_s(a: Isometry3) -> Isometry3;
 
 impl core::ops::Mul<Matrix3> for Matrix3 { type Output = Matrix3; #[verifier::external_body] fn mul(self, rhs: Matrix3) -> Matrix3 { unimplemented!() } }
 impl MulSpecImpl<Matrix3> for Matrix3 {
@@ -275,8 +276,25 @@ pub broadcast axiom fn ax_iso_mul(a: Isometry3, b: Isometry3)
     requires a.wf(), b.wf()
     ensures (#[trigger] iso_mul_s(a, b)).wf(), iso_mul_s(a, b).view() == iso_mul(a.view(), b.view());
 
+pub broadcast axiom fn ax_iso_inv(a: Isometry3)
+    requires a.wf()
+    ensures (#[trigger] iso_inv_s(a)).wf(), iso_inv_s(a).view() == iso_inv(a.view());
+
+// ---- isometry algebra over the real-valued view (textbook facts about rigid motions; ASSUMED, not proved) -----
+pub open spec fn iso_wf(p: Iso) -> bool { proper(p.r) }
+pub axiom fn ax_iso_assoc(a: Iso, b: Iso, c: Iso)
+    ensures iso_mul(iso_mul(a, b), c) == iso_mul(a, iso_mul(b, c));
+pub axiom fn ax_iso_inverse(a: Iso)
+    requires iso_wf(a)
+    ensures iso_mul(a, iso_inv(a)) == iso_id(), iso_mul(iso_inv(a), a) == iso_id(), iso_wf(iso_inv(a));
+pub axiom fn ax_iso_identity(a: Iso)
+    ensures iso_mul(a, iso_id()) == a, iso_mul(iso_id(), a) == a;
+pub axiom fn ax_iso_mul_wf(a: Iso, b: Iso)
+    requires iso_wf(a), iso_wf(b)
+    ensures iso_wf(iso_mul(a, b));
+
 pub broadcast group group_na {
-    ax_mat_mul, ax_mat_scale, ax_mat_vec, ax_vec_add, ax_vec_sub, ax_vec_scale, ax_iso_mul, ax_norm,
+    ax_mat_mul, ax_mat_scale, ax_mat_vec, ax_vec_add, ax_vec_sub, ax_vec_scale, ax_iso_mul, ax_iso_inv, ax_norm,
 }
 
 } // mod na
